@@ -113,6 +113,30 @@ func (t *decTr) stmt(s ast.Stmt) string {
 			return "DIf " + t.expr(x.Cond) + " " + t.stmts(x.Body.List) + " " + els
 		}
 	case *ast.SwitchStmt:
+		if x.Init == nil && x.Tag == nil {
+			// switch { case c1: ..; case c2: ..; default: .. }  =  if c1 {..} else if c2 {..} else {..}
+			var dflt string = "[]"
+			type arm struct{ cond, body string }
+			var arms []arm
+			for _, c := range x.Body.List {
+				cc := c.(*ast.CaseClause)
+				if cc.List == nil {
+					dflt = t.stmts(cc.Body)
+					continue
+				}
+				cond := t.expr(cc.List[0])
+				for _, e := range cc.List[1:] {
+					cond = "(DOr " + cond + " " + t.expr(e) + ")"
+				}
+				arms = append(arms, arm{cond, t.stmts(cc.Body)})
+			}
+			out := dflt
+			for i := len(arms) - 1; i >= 0; i-- {
+				out = "[DIf " + arms[i].cond + " " + arms[i].body + " " + out + "]"
+			}
+			// a one-statement list: unwrap
+			return strings.TrimSuffix(strings.TrimPrefix(out, "["), "]")
+		}
 		if x.Init == nil && x.Tag != nil {
 			var cases []string
 			for _, c := range x.Body.List {
